@@ -33,7 +33,16 @@ import os as _os
 if not _os.environ.get("PYVC_TIMEOUT_MS"):
     from pyvc import solve as _solve
     _solve.QUICK_TIMEOUT_MS = 4000
-EXECUTOR_KW = {"sharepoint2text/parsing/extractors/ms_legacy/rtf_extractor.py::_RtfParser._strip_rtf_full_with_pages": {"unknown_items_are_str": True, "feas_timeout_ms": 30}}
+class _ExecutorKw(dict):
+    """Executor options by target; the RTF walker (whatever it is called) runs with cheap feasibility checks."""
+
+    def get(self, target, default=None):
+        if target and "/rtf_extractor.py::" in target:
+            return {"unknown_items_are_str": True, "feas_timeout_ms": 30}
+        return default
+
+
+EXECUTOR_KW = _ExecutorKw()
 
 
 def _sl(st, v):
@@ -72,6 +81,43 @@ def grown(lc):
     has ADDED, so statements before the loop (and where the list comes from) do not matter."""
     a = acc(lc)
     return _sl(lc.entry, a), _sl(lc.st, a)
+
+
+def find_fn(rel, name, mentions=(), nparams=None, calls=(), exclude=()):
+    """Qualified name of the function that plays the role `name` had when the contract was written: `name` itself when it
+    exists; otherwise the unique function of the module with the same arity that mentions the given names / string
+    constants and calls the given functions (a renamed helper).  Not found or ambiguous -> `name` (target missing: undecided)."""
+    import ast
+    from pyvc import loader
+    try:
+        mod = loader.module(rel)
+    except OSError:
+        return name
+    if name in mod.functions:
+        return name
+    prefix = name.rsplit(".", 1)[0] + "." if "." in name else ""
+    cands = []
+    for q, fn in mod.functions.items():
+        if "<locals>" in q or (q.rsplit(".", 1)[0] + "." if "." in q else "") != prefix or q in exclude:
+            continue
+        a = fn.args
+        if nparams is not None and len(a.posonlyargs + a.args + a.kwonlyargs) != nparams:
+            continue
+        names = {x.id for x in ast.walk(fn) if isinstance(x, ast.Name)} | {x.attr for x in ast.walk(fn) if isinstance(x, ast.Attribute)} \
+            | {x.value for x in ast.walk(fn) if isinstance(x, ast.Constant) and isinstance(x.value, str)}
+        called = {x.func.id for x in ast.walk(fn) if isinstance(x, ast.Call) and isinstance(x.func, ast.Name)} \
+            | {x.func.attr for x in ast.walk(fn) if isinstance(x, ast.Call) and isinstance(x.func, ast.Attribute)}
+        if all(m in names for m in mentions) and all(c.rsplit(".", 1)[-1] in called for c in calls):
+            cands.append(q)
+    return cands[0] if len(cands) == 1 else name
+
+
+def under(rel, role, actual, **kw):
+    """FnContract on the function `actual` that keeps its obligation ids under the role name (ids survive a rename)."""
+    c = FnContract(target=f"{rel}::{actual}", **kw)
+    if actual != role:
+        c.oid_qual = role
+    return c
 
 
 class Sig:
@@ -289,8 +335,8 @@ def odf_contracts(reg):
         return Conj([("parts==old+text+items-of-processed-children",
                       c1 == cc(c0, ODF_KIDS(e, lc.i, *cfg(lambda n: top(lc, n), lc.st))))])
 
-    append = FnContract(
-        target=f"{SHARED}::{helper}",
+    append = under(
+        SHARED, "_append_element_text", helper,
         params=[(n, maker(layout[n])) for n in hp],
         ensures=[need_loops("children"), ("parts==old(parts)+odf_text(element)",
                   X.robust(lambda c: cat_of(c.st, c.args[a_name]) == cc(cat_of(c.entry, c.args[a_name]),
@@ -489,7 +535,11 @@ def elem_loop(it, v):
 
 
 def docx_contracts():
-    sp = Sig(DOCX, "_process_text_element", ["elem", "parts", "include_formulas"])
+    PROC = find_fn(DOCX, "_process_text_element", mentions=["W_R", "MC_CHOICE"], nparams=3)
+    PARA = find_fn(DOCX, "_extract_paragraph_content", mentions=["join"], calls=[PROC], nparams=2)
+    TBL = find_fn(DOCX, "_extract_table_text", mentions=["W_TR", "W_TC"], nparams=2)
+    BODY = find_fn(DOCX, "_extract_full_text_from_body", mentions=["W_TBL"], calls=[TBL], nparams=2)
+    sp = Sig(DOCX, PROC, ["elem", "parts", "include_formulas"])
     OLD = z3.String(f"{sp.name['parts']}.cat")
 
     def kids_inv(lc):
@@ -511,8 +561,8 @@ def docx_contracts():
                               h(cat_of(c.st, sp(c, "parts"))) == cc(h(cat_of(c.entry, sp(c, "parts"))), D.F(e, inc)))
         return X.robust(f)
 
-    process = FnContract(
-        target=f"{DOCX}::_process_text_element",
+    process = under(
+        DOCX, "_process_text_element", PROC,
         params=sp.params({"elem": p_elem(), "parts": p_strlist(), "include_formulas": p_bool()}),
         ensures=[need_loops("choice-children", "run-children", "children")]
                 + [(f"{nm}(parts)==old+dx_{nm}(elem)[{cn}]", post(nm, D, h, g)) for nm, D, h in DX_IMAGES for cn, g in ELEM_CASES],
@@ -538,15 +588,15 @@ def docx_contracts():
     omml = FnContract(target=f"{OMML_PY}::omml_to_latex", params=[("elem", p_elem())], assumed=True,
                       returns=lambda c: VStr(OMML(c.args["elem"].t)), note="uninterpreted: C19 decides what the LaTeX is")
 
-    sq_ = Sig(DOCX, "_extract_paragraph_content", ["paragraph", "include_formulas"])
+    sq_ = Sig(DOCX, PARA, ["paragraph", "include_formulas"])
 
     def par_inv(lc):
         e, inc = lc.seq.t, top(lc, sq_.name["include_formulas"]).t
         (_n0, c0, _l0), (_n1, cur, _l1) = grown(lc)
         return Conj([(nm, h(cur) == cc(h(c0), D.KIDS(e, lc.i, inc))) for nm, D, h in DX_IMAGES])
 
-    para = FnContract(
-        target=f"{DOCX}::_extract_paragraph_content",
+    para = under(
+        DOCX, "_extract_paragraph_content", PARA,
         params=sq_.params({"paragraph": p_elem(), "include_formulas": p_bool()}),
         ensures=[need_loops("children")] + [(f"{nm}(result)==dx_{nm}_children(paragraph)",
                   (lambda nm, D, h: X.robust(lambda c: h(c.result.t) == D.all_kids(sq_(c, "paragraph").t, sq_(c, "include_formulas").t)))(nm, D, h))
@@ -562,9 +612,9 @@ def docx_contracts():
         st.assume(X.slist_wf(n, cat, lead))
         return X.mk_slist(ex, st, n, cat, lead, fresh=True)
 
-    st_ = Sig(DOCX, "_extract_table_text", ["table", "include_formulas"])
-    table = FnContract(
-        target=f"{DOCX}::_extract_table_text",
+    st_ = Sig(DOCX, TBL, ["table", "include_formulas"])
+    table = under(
+        DOCX, "_extract_table_text", TBL,
         params=st_.params({"table": p_elem(), "include_formulas": p_bool()}),
         assumed=True, result_maker=tbl_result,
         ensures=[("nw", lambda c: NW(cat_of(c.st, c.result)) == TBLN(st_(c, "table").t, st_(c, "include_formulas").t)),
@@ -572,7 +622,7 @@ def docx_contracts():
                  ("pieces-not-blank", lambda c: (_sl(c.st, c.result)[0] == 0) == (NW(cat_of(c.st, c.result)) == lit("")))],
         note="callee contract used by the body walk; the function itself is checked exhaustively over small trees (BOUNDED, replay/C02.py)",
     )
-    sb = Sig(DOCX, "_extract_full_text_from_body", ["body", "include_formulas"])
+    sb = Sig(DOCX, BODY, ["body", "include_formulas"])
 
     def body_inv(lc):
         e, inc = lc.seq.t, top(lc, sb.name["include_formulas"]).t
@@ -594,8 +644,8 @@ def docx_contracts():
         bs = BODYS(sb(c, "body").t, NCH(sb(c, "body").t), sb(c, "include_formulas").t)
         return z3.If(c.result.t == lit(""), bs == lit(""), cc(" ", SQ(c.result.t)) == bs)
 
-    body = FnContract(
-        target=f"{DOCX}::_extract_full_text_from_body",
+    body = under(
+        DOCX, "_extract_full_text_from_body", BODY,
         params=sb.params({"body": Maker(lambda ex, st, name: p_elem().make(ex, st, name) + [(None, NONE)], desc="Optional[Element]"),
                           "include_formulas": Maker(lambda ex, st, name: VBool(z3.Bool(name)), desc="bool", default=lambda ex, st: VBool(True))}),
         ensures=[need_loops("blocks"), ("nw(result)==nw-of-blocks-in-order", X.robust(body_post_nw)),
@@ -829,15 +879,17 @@ def html_contracts(reg):
     reg.module_consts[(HTML, "_RE_WS")] = VExt("RegexWS")
     p_self = p_obj("_HtmlTextExtractor", {})
     p_flag = lambda dflt: Maker(lambda ex, st, name: VBool(z3.Bool(name)), desc="bool", default=lambda ex, st: VBool(dflt))
-    sgn = Sig(HTML, "_HtmlTextExtractor._get_node_text", ["self", "node", "include_children", "include_tail"])
+    PNODE = find_fn(HTML, "_HtmlTextExtractor._process_node", mentions=["li", "BLOCK_TAGS", "REMOVE_TAGS"], nparams=4)
+    GNT = find_fn(HTML, "_HtmlTextExtractor._get_node_text", mentions=["text", "children", "tail", "join"], nparams=4, exclude=[PNODE])
+    sgn = Sig(HTML, GNT, ["self", "node", "include_children", "include_tail"])
 
     def gnt_inv(lc):
         n = lc.seq.tag[1]
         (_n0, c0, _l0), (_n1, c1, _l1) = grown(lc)
         return Conj([("parts==text+texts-of-processed-children", c1 == cc(c0, HT_KIDS(n, lc.i)))])
 
-    gnt = FnContract(
-        target=f"{HTML}::_HtmlTextExtractor._get_node_text",
+    gnt = under(
+        HTML, "_HtmlTextExtractor._get_node_text", GNT,
         params=sgn.params({"self": p_self, "node": p_hnode(), "include_children": p_flag(True), "include_tail": p_flag(False)}),
         returns=lambda c: VStr(cc(z3.If(sgn(c, "include_children").t, HT(sgn(c, "node").t), H_TEXT(sgn(c, "node").t)),
                                   z3.If(sgn(c, "include_tail").t, H_TAIL(sgn(c, "node").t), lit("")))),
@@ -851,15 +903,15 @@ def html_contracts(reg):
     format_table = FnContract(target=f"{HTML}::_HtmlTextExtractor._format_table_as_text",
                               params=[("self", p_self), ("table_data", Maker(lambda ex, st, n: VExt("HtmlTableData"), desc="table data"))],
                               assumed=True, returns=lambda c: VStr(TD_TEXT(c.args["table_data"].t)), note="BOUNDED check html.extract")
-    spn = Sig(HTML, "_HtmlTextExtractor._process_node", ["self", "node", "depth", "include_tail"])
+    spn = Sig(HTML, PNODE, ["self", "node", "depth", "include_tail"])
 
     def pn_inv(lc):
         n = lc.seq.tag[1]
         (_n0, c0, _l0), (_n1, c1, _l1) = grown(lc)
         return Conj([("nw", NW(c1) == cc(NW(c0), PN_KIDS(n, lc.i)))])
 
-    pn = FnContract(
-        target=f"{HTML}::_HtmlTextExtractor._process_node",
+    pn = under(
+        HTML, "_HtmlTextExtractor._process_node", PNODE,
         params=spn.params({"self": p_obj("_HtmlTextExtractor", {"tables": Maker(lambda ex, st, n: VUnk(n), desc="list")}), "node": p_hnode(),
                            "depth": Maker(lambda ex, st, name: VInt(z3.Int(name)), desc="int", default=lambda ex, st: VInt(0)),
                            "include_tail": p_flag(False)}),
@@ -906,7 +958,8 @@ define(GRID_NW, lambda h, k: prefix_def(GRID_NW(h, k), k, cc(GRID_NW(h, z3.simpl
 
 
 def xls_contracts():
-    sx = Sig(XLS, "_format_sheet_as_text", ["headers", "rows"])
+    FMT = find_fn(XLS, "_format_sheet_as_text", mentions=["rjust", "join"], nparams=2)
+    sx = Sig(XLS, FMT, ["headers", "rows"])
 
     def row_of(seq):
         """The row a cell loop runs over: `for v in row` / `for i, v in enumerate(row)`."""
@@ -929,8 +982,8 @@ def xls_contracts():
         n = z3.Int(f"{sx.name['rows']}.len")
         return NW(c.result.t) == GRID_NW(h, z3.If(RLEN(h) > 0, n + 1, n))
 
-    fmt = FnContract(
-        target=f"{XLS}::_format_sheet_as_text",
+    fmt = under(
+        XLS, "_format_sheet_as_text", FMT,
         params=sx.params({"headers": X.p_strrow(), "rows": X.p_rowseq(ROWS_AT)}),
         ensures=[need_loops("rows", "cells"), ("nw(result)==row-major-nw-of-cells", X.robust(post))],
         raises=[Raises("Exception", sub=True)],
@@ -1043,8 +1096,11 @@ IS_SKIP = z3.Function("rtf.is_skip_destination", S, B)
 def rtf_contracts():
     unk = lambda: Maker(lambda ex, st, n: VUnk(n), desc="any")
     p_self = p_obj("_RtfParser", {"pages": unk(), "SPECIAL_CHARS": unk(), "SKIP_DESTINATIONS": unk()})
-    isskip = FnContract(target=f"{RTF}::_RtfParser._is_skip_destination", params=[("self", p_self), ("ahead", p_str())], assumed=True,
-                        returns=lambda c: VBool(IS_SKIP(c.args["ahead"].t)), note="which control words are destinations is a table (uninterpreted here)")
+    ISSKIP = find_fn(RTF, "_RtfParser._is_skip_destination", mentions=["SKIP_DESTINATIONS", "startswith"], nparams=2)
+    WALK = find_fn(RTF, "_RtfParser._strip_rtf_full_with_pages", mentions=["SPECIAL_CHARS", "pages"], calls=[ISSKIP], nparams=2)
+    sk_ = Sig(RTF, ISSKIP, ["self", "ahead"])
+    isskip = FnContract(target=f"{RTF}::{ISSKIP}", params=sk_.params({"self": p_self, "ahead": p_str()}), assumed=True,
+                        returns=lambda c: VBool(IS_SKIP(sk_(c, "ahead").t)), note="which control words are destinations is a table (uninterpreted here)")
 
     def roles():
         """The walker's state variables, found by what they do, not by name: in the branch guarded by the
@@ -1052,11 +1108,11 @@ def rtf_contracts():
         lists are the str lists the character loop appends to."""
         import ast
         from pyvc import loader
-        fn = loader.module(RTF).functions.get("_RtfParser._strip_rtf_full_with_pages")
+        fn = loader.module(RTF).functions.get(WALK)
         if fn is None:
             raise X.Unsupported("walker not found")
         for n in ast.walk(fn):
-            if isinstance(n, ast.If) and any(isinstance(x, ast.Call) and isinstance(x.func, ast.Attribute) and x.func.attr == "_is_skip_destination"
+            if isinstance(n, ast.If) and any(isinstance(x, ast.Call) and isinstance(x.func, ast.Attribute) and x.func.attr == ISSKIP.rsplit(".", 1)[-1]
                                              for x in ast.walk(n.test)):
                 flag = [x.targets[0].id for x in n.body if isinstance(x, ast.Assign) and isinstance(x.targets[0], ast.Name)
                         and isinstance(x.value, ast.Constant) and x.value.value is True]
@@ -1094,9 +1150,9 @@ def rtf_contracts():
                         result_maker=lambda ex, st, ctx: VStr(z3.String(fresh_name("decoded"))), note="\\uN decoding: some string (C04 decides which)")
     spec = LoopSpec(label="characters")
     spec.step = step
-    sw = Sig(RTF, "_RtfParser._strip_rtf_full_with_pages", ["self", "text"])
-    walker = FnContract(
-        target=f"{RTF}::_RtfParser._strip_rtf_full_with_pages",
+    sw = Sig(RTF, WALK, ["self", "text"])
+    walker = under(
+        RTF, "_RtfParser._strip_rtf_full_with_pages", WALK,
         params=sw.params({"self": p_self, "text": p_str()}),
         ensures=[need_loops("characters")],
         raises=[Raises("Exception", sub=True)],
@@ -1106,7 +1162,7 @@ def rtf_contracts():
 
     def walker_loops(ex, st, node, it):
         import ast
-        if isinstance(node, ast.While) and any(isinstance(x, ast.Call) and isinstance(x.func, ast.Attribute) and x.func.attr == "_is_skip_destination"
+        if isinstance(node, ast.While) and any(isinstance(x, ast.Call) and isinstance(x.func, ast.Attribute) and x.func.attr == ISSKIP.rsplit(".", 1)[-1]
                                                for x in ast.walk(node)):
             return matched(ex, spec)
         return None
@@ -1281,6 +1337,16 @@ def bounded_native(repo, tier):
             if case == "<error>":
                 errors.append({"function": fn, "error": r.get("error", "")[-600:]})
                 continue
+            if case == "<unresolved>":
+                # the function this stand-in exercises is gone (renamed / restructured): its obligations are undecided, not dropped
+                import json
+                import os
+                lock = json.load(open(os.path.join(os.path.dirname(os.path.dirname(os.path.abspath(__file__))), "obligations.lock.json"))).get("C02", {})
+                for oid in lock:
+                    if oid.startswith(f"C02/{fn}/bounded#"):
+                        obls.append({"id": oid, "kind": "bounded", "status": "unknown", "vcs": 0, "seconds": 0.0, "backends": {"native-small-scope": 1},
+                                     "witness": None, "reason": "UNKNOWN-SHAPE: " + r.get("error", ""), "loc": "replay/C02.py", "bounded": True})
+                continue
             obls.append(_ob(f"C02/{fn}/bounded#tokens[{case}]", r["failures"] == 0, r["checked"], r["witness"]))
     for fmt, feats in res.get("documents", {}).items():
         for feat, r in feats.items():
@@ -1385,7 +1451,8 @@ def odp_fragment(repo, reg, uni, pre):
     from pyvc.state import Frame, State, HeapObj
     fq = f"{ODP}::_extract_slide"
     mod = loader.module(ODP, repo)
-    fnode = mod.functions.get("_extract_slide")
+    fname = find_fn(ODP, "_extract_slide", mentions=["body_text", "other_text", "notes"], nparams=4)
+    fnode = mod.functions.get(fname)
     if fnode is None:
         return {"obligations": _unknown(pre, ODP_BLOCK_IDS, "function not found", fq)}
     loops = _iter_p_loops(fnode)
@@ -1470,7 +1537,7 @@ def odp_fragment(repo, reg, uni, pre):
                 ex.add_vc("block", f"{kind}.{label}", o.st.pc, g, loc=f"{ODP}:{loop.lineno}")
         for ob in ex.obls.values():
             obls.append(dict(verify.discharge(ob, None, {}), function=fq))
-    return {"obligations": obls, "functions": [dict(mod.fn_info("_extract_slide"), obligations=len(obls))]}
+    return {"obligations": obls, "functions": [dict(mod.fn_info(fname), obligations=len(obls))]}
 
 
 # pptx_extractor._process_slide_from_context, placeholder classification of a shape's text.  Statement: the text of every
@@ -1487,7 +1554,8 @@ def pptx_fragment(repo, reg, uni, pre):
     from pyvc.state import Frame, State, HeapObj
     fq = f"{PPTX}::_process_slide_from_context"
     mod = loader.module(PPTX, repo)
-    fnode = mod.functions.get("_process_slide_from_context")
+    fname = find_fn(PPTX, "_process_slide_from_context", mentions=["TITLE_TYPES", "FOOTER_TYPES"], nparams=3)
+    fnode = mod.functions.get(fname)
     if fnode is None:
         return {"obligations": _unknown(pre, PPTX_BLOCK_IDS, "function not found", fq)}
 
@@ -1572,7 +1640,7 @@ def pptx_fragment(repo, reg, uni, pre):
             ex.add_vc("block", PPTX_BLOCK_IDS[1], o.st.pc, g_excl, loc=f"{PPTX}:{stmt.lineno}")
     for ob in ex.obls.values():
         obls.append(dict(verify.discharge(ob, None, {}), function=fq))
-    return {"obligations": obls, "functions": [dict(mod.fn_info("_process_slide_from_context"), obligations=len(obls))]}
+    return {"obligations": obls, "functions": [dict(mod.fn_info(fname), obligations=len(obls))]}
 
 
 EXTRA = [bounded_native, fragment_obligations]
